@@ -150,12 +150,22 @@ theorem C25_replaceLast_append (l suf : String) (hs : suf ≠ "") : replaceLast 
   rw [String.toList_append, replaceLastL_append _ _ h1]
   simp
 
-/-- hence the import of a kernel of another module is always renamed together with the call -/
+/-- hence the import of a kernel of another module is always renamed together with the call (unless the name already
+ends with the suffix: see `C25_depRef_idempotent`) -/
 theorem C25_depRef_import_renamed (suf : String) (dm newScope : String → String) (u : Nm) (s l : String)
-    (hs : suf ≠ "") (h1 : s ≠ "") (h2 : s ≠ u.scope) :
+    (hs : suf ≠ "") (h1 : s ≠ "") (h2 : s ≠ u.scope) (hl : l.endsWith suf = false) :
     depRef suf dm newScope u (.proc s l) = .proc (dm s) (l ++ suf) := by
   unfold depRef
-  simp [h1, h2, C25_replaceLast_append l suf hs]
+  simp [h1, h2, hl, C25_replaceLast_append l suf hs]
+
+/-- `rename_calls` / `rename_imports` leave a reference alone whose name already ends with the suffix (the repaired
+idempotence: applying the suffix renaming again, or to a driver again, does not produce `r1_x_x`) -/
+theorem C25_depRef_idempotent (suf : String) (dm newScope : String → String) (u r : Nm)
+    (hl : r.loc.endsWith suf = true) : depRef suf dm newScope u r = r := by
+  unfold depRef
+  cases r with
+  | proc s l => simp only [Nm.loc] at hl; simp [hl]
+  | mod m => rfl
 
 theorem reread_keys {st : St} (files : List String) (h : ∀ e ∈ st.cache, e.1 = e.2) :
     ∀ e ∈ (reread st files).cache, e.1 = e.2 := by
